@@ -58,7 +58,9 @@ def _case(draw):
     if d.chance(0.3):
         frags = []
         for _ in range(d.i(2, 14)):
-            if d.chance(0.35):
+            if d.chance(0.2):
+                frags.append(["e", d.pick("cCrRtTmMpP")])
+            elif d.chance(0.3):
                 frags.append(["p", d.pick(PROTECT)])
             else:
                 frags.append(["r", d.pick(RAWFRAGS)])
@@ -155,6 +157,11 @@ def walk(a, b, q, res: Res, mode: str, stage: str, in_auto=False) -> bool:
     return True
 
 
+def _sub_z(h: str, letters: list) -> str:
+    it = iter(letters)
+    return re.sub("z", lambda m: next(it), h)
+
+
 def check(case) -> Res:
     res = Res()
     q = case["quotes"]
@@ -162,8 +169,18 @@ def check(case) -> Res:
     res.cls.append(case["kind"])
     res.cls.append("mode:" + case["mode"])
     if case["kind"] == "escape-vs-entity":
-        esc = "".join(("\\" + v) if k == "p" else v for k, v in case["frags"])
-        ent = "".join(("&#%d;" % ord(v)) if k == "p" else v for k, v in case["frags"])
+        lit = lambda k, v: ("&#%d;" % ord(v)) if k == "e" else v  # noqa: E731  letters written as numeric references
+        esc = "".join(("\\" + v) if k == "p" else lit(k, v) for k, v in case["frags"])
+        ent = "".join(("&#%d;" % ord(v)) if k == "p" else lit(k, v) for k, v in case["frags"])
+        letters = [v for k, v in case["frags"] if k == "e"]
+        if letters and "z" not in esc.replace("&#122;", ""):
+            # a letter written as a reference is opaque to the typographer: writing another letter ('z') there must
+            # change nothing but that letter
+            zsrc = "".join(("\\" + v) if k == "p" else ("&#122;" if k == "e" else v) for k, v in case["frags"])
+            if off.render(zsrc).count("z") == len(letters) and off.render(esc) == _sub_z(off.render(zsrc), letters):
+                hz = on.render(zsrc)
+                if hz.count("z") == len(letters) and on.render(esc) != _sub_z(hz, letters):
+                    res.fail("entity-letter-rewritten", f"typographer on: {esc!r} -> {on.render(esc)!r}, but with 'z' in place of the referenced letters {zsrc!r} -> {hz!r}")
         if not esc.strip():
             return res
         h1 = on.render(esc)
